@@ -211,7 +211,34 @@ pub proof fn lemma_header_lines_push(ks: Seq<Seq<char>>, k: Seq<char>, hm: HMap)
 { assert(ks.push(k).drop_last() =~= ks); }
 
 // ---- G4: canonicalized parameters ------------------------------------------------------------------------------------
-pub uninterp spec fn canon_p(ps: Seq<(Seq<char>, Seq<char>)>) -> Seq<char>;  // TODO
+pub type QPair = (Seq<char>, Seq<char>);
+pub open spec fn sort_key(p: QPair) -> Seq<char> { lower(p.0) + p.1 }
+pub open spec fn segment(p: QPair) -> Seq<char> { if p.1.len() == 0 { lower(p.0) } else { lower(p.0) + "="@ + p.1 } }
+// ascending by lower(k) || v: insertion sort (pairs with equal sort keys keep their order in the request)
+pub open spec fn insert_sorted(sorted: Seq<QPair>, p: QPair) -> Seq<QPair>
+    decreases sorted.len()
+{
+    if sorted.len() == 0 { seq![p] }
+    else if lex_lt(sort_key(p), sort_key(sorted.last())) { insert_sorted(sorted.drop_last(), p).push(sorted.last()) }
+    else { sorted.push(p) }
+}
+pub open spec fn sort_pairs(ps: Seq<QPair>) -> Seq<QPair>
+    decreases ps.len()
+{
+    if ps.len() == 0 { Seq::empty() } else { insert_sorted(sort_pairs(ps.drop_last()), ps.last()) }
+}
+pub open spec fn join_amp(segs: Seq<Seq<char>>) -> Seq<char>
+    decreases segs.len()
+{
+    if segs.len() == 0 { Seq::empty() } else if segs.len() == 1 { segs[0] } else { join_amp(segs.drop_last()) + "&"@ + segs.last() }
+}
+pub open spec fn segments(ps: Seq<QPair>) -> Seq<Seq<char>> { Seq::new(ps.len(), |i: int| segment(ps[i])) }
+// one segment per pair, ascending, joined by '&'
+pub open spec fn canon_p(ps: Seq<QPair>) -> Seq<char> { join_amp(segments(sort_pairs(ps))) }
+// no two pairs of the request have the same lower(k) || v  (what the code's map is keyed by)
+pub open spec fn distinct_sort_keys(ps: Seq<QPair>) -> bool {
+    forall|i: int, j: int| 0 <= i < ps.len() && 0 <= j < ps.len() && i != j ==> sort_key(#[trigger] ps[i]) != sort_key(#[trigger] ps[j])
+}
 
 // ---- G1/G2: the canonical string ("string to sign") -----------------------------------------------------------------
 pub open spec fn canon(method: Seq<char>, body: Seq<u8>, hm: HMap, path: Seq<char>, pairs: Seq<(Seq<char>, Seq<char>)>) -> Seq<u8> {
